@@ -10,7 +10,8 @@ def lay(rng, **force):
          "trail_nl": rng.chance(4, 5), "blank": rng.chance(1, 3), "comment": rng.chance(1, 3),
          "nonascii": rng.chance(1, 8), "compact": rng.chance(1, 8), "quote": rng.choice(['"', "'", ""]),
          "escape": rng.chance(1, 10), "trail_ws": rng.chance(1, 8), "flow": rng.chance(1, 10), "tabsep": rng.chance(1, 6),
-         "lead_ws": rng.choice(["", "", "", "  ", "\t"]),
+         "lead_ws": rng.choice(["", "", "", "  ", "\t"]), "qkey": False,      # TOML: keys written as quoted keys (finding F-C04-14: drawn by the C04 streams only)
+
          "cgap": rng.choice([" # ", " # ", "  # ", "\t# ", " #", "   #  "])}      # blanks around the '#' of a version comment
     L.update(force)
     return L
@@ -63,6 +64,8 @@ def cargo_toml(deps, L):
         out.append(f"[{t}]")
         q = "'" if L["quote"] == "'" else '"'
         for name, form, spec, decl in items:
+            if L.get("qkey") and form in ("simple", "inline", "inline2"):
+                name = f'"{name}"'
             eq = f"{L['sp_colon']}={L['sp_colon']}" if L["sp_colon"] else " = "
             tc = "  # pinned" if L["comment"] else ""
             if form == "simple": out.append(f'{name}{eq}{q}{spec}{q}{tc}')
@@ -138,17 +141,19 @@ def pyproject(deps, L):
         if L["compact"]:
             return "[" + ", ".join(f'"{r}"' for r in items) + "]"
         return "[" + n + "".join(f'{L["indent"]}"{r}",{n}' for r in items) + "]"
+    def qk(k):
+        return f'"{k}"' if L.get("qkey") else k
     proj = [d for d in deps if d[0] == "project"]
     opt = {}
     for d in deps:
         if d[0].startswith("optional:"): opt.setdefault(d[0][9:], []).append(d)
     build = [d for d in deps if d[0] == "build"]
     if build:
-        out += ["[build-system]", f"requires = {arr([d[1] for d in build])}", 'build-backend = "setuptools.build_meta"', ""]
+        out += ["[build-system]", f"{qk('requires')} = {arr([d[1] for d in build])}", 'build-backend = "setuptools.build_meta"', ""]
         declared += [d[2] for d in build if d[2]]
     out += ["[project]", 'name = "demo"', 'version = "0.1.0"']
     if proj:
-        out.append(f"dependencies = {arr([d[1] for d in proj])}")
+        out.append(f"{qk('dependencies')} = {arr([d[1] for d in proj])}")
         declared += [d[2] for d in proj if d[2]]
     out.append("")
     if opt:
@@ -188,10 +193,14 @@ def pnpm_workspace(deps, L):
 def deno_json(deps, L):
     """deps: (alias, specifier, declared or None)"""
     n, ind = nl(L), L["indent"]
-    lines = ["{", f'{ind}"name": "@demo/app",', f'{ind}"imports":{L["sp_colon"]}{{']
+    # deno.jsonc: comments are part of the format - before the root object, between members, after values
+    c = L["comment"]
+    lines = (["// deno.jsonc" + (" é" if L["nonascii"] else "")] if c and L["blank"] else ["/* the import map */"] if c else [])
+    lines += ["{", f'{ind}"name": "@demo/app",', f'{ind}"imports":{L["sp_colon"]}{{']
     declared = []
     for i, (alias, spec, decl) in enumerate(deps):
-        lines.append(f'{ind}{ind}{json.dumps(alias)}:{L["sp_colon"]}{json.dumps(spec)}' + ("," if i < len(deps) - 1 else ""))
+        if c and i == 1: lines.append(f"{ind}{ind}// pinned")
+        lines.append(f'{ind}{ind}{json.dumps(alias)}:{L["sp_colon"]}{json.dumps(spec)}' + ("," if i < len(deps) - 1 else "") + (" // keep" if c and i == 0 else ""))
         if decl: declared.append(decl)
     lines += [f"{ind}}}", "}"]
     return n.join(lines) + (n if L["trail_nl"] else ""), declared
